@@ -38,7 +38,7 @@ type c03 struct{}
 func init()            { core.Register(c03{}) }
 func (c03) ID() string { return "C03" }
 
-var c03Byz = []string{"valid-solved", "r=0", "s=0", "r=n", "s=n", "r+n", "s+n", "t=0", "pubx+p", "puby+p?", "offcurve", "infinity", "neg-pub", "e>=n"}
+var c03Byz = []string{"valid-solved", "r=0", "s=0", "r=n", "s=n", "r+n", "s+n", "t=0", "pubx+p", "puby+p?", "offcurve", "infinity", "neg-pub", "e>=n", "x1>=n", "pubx+p/structured"}
 
 func (c03) Plan(tier string) core.Plan {
 	sys := len(c03Byz) * 4
@@ -136,6 +136,48 @@ func c03Byzantine(kind string, w *core.Rand) map[string]string {
 				continue
 			}
 			return map[string]string{"pubx": hx(ref.Pad32(P.X)), "puby": hx(ref.Pad32(P.Y)), "e": hx(e), "r": hx(ref.Pad32(rr)), "s": hx(ref.Pad32(ss))}
+		case "x1>=n":
+			// a valid tuple whose R = [s]G+[t]P has an abscissa in [n, p): x1 is reduced mod n by
+			// the equation, so the verifier must not assume x1 < n. Choose R1 with x >= n, then
+			// P = t^-1 (R1 - [s]G), r = t - s, e = r - x1.
+			var R1 ref.Pt
+			found := false
+			for off := int64(w.Intn(1000)); off < 200000 && !found; off++ {
+				x := new(big.Int).Add(ref.SM2N, big.NewInt(off))
+				if x.Cmp(ref.SM2P) >= 0 {
+					break
+				}
+				rhs := new(big.Int).Exp(x, big.NewInt(3), ref.SM2P)
+				rhs.Add(rhs, new(big.Int).Mul(ref.SM2A, x))
+				rhs.Add(rhs, ref.SM2B)
+				rhs.Mod(rhs, ref.SM2P)
+				if y, ok := sqrtP(rhs); ok {
+					R1, found = ref.Pt{X: x, Y: y}, true
+				}
+			}
+			if !found {
+				continue
+			}
+			tt := new(big.Int).Add(r, s)
+			tt.Mod(tt, n)
+			if tt.Sign() == 0 {
+				continue
+			}
+			Q := ref.Add(R1, ref.Neg(ref.MulG(s)))
+			if Q.Inf {
+				continue
+			}
+			PP := ref.Mul(new(big.Int).ModInverse(tt, n), Q)
+			if PP.Inf {
+				continue
+			}
+			ev := new(big.Int).Sub(r, R1.X)
+			ev.Mod(ev, n)
+			return map[string]string{"pubx": hx(ref.Pad32(PP.X)), "puby": hx(ref.Pad32(PP.Y)), "e": hx(ref.Pad32(ev)), "r": hx(ref.Pad32(r)), "s": hx(ref.Pad32(s))}
+		case "pubx+p/structured":
+			x, y := structuredXPoint(w)
+			P = ref.Pt{X: x, Y: y}
+			encPx = new(big.Int).Add(x, ref.SM2P)
 		case "valid-solved", "neg-pub":
 		case "r=0", "r=n":
 			r = big.NewInt(0)
